@@ -3,6 +3,7 @@ replayed on the real code, which recorded traces are validated.  See DESIGN.md s
 
 
 def c07(ctx, res):
+    path_trace(ctx, res)
     cfg = "MC_C07_quick.cfg" if ctx.quick else "MC_C07_thorough.cfg"
     ctx.gen_replay(res, "vfp", "MC_C07.tla", cfg)
     if not ctx.quick:
@@ -15,6 +16,7 @@ def c07(ctx, res):
 
 
 def c08(ctx, res):
+    path_trace(ctx, res)
     cfg = "MC_C08_quick.cfg" if ctx.quick else "MC_C08_thorough.cfg"
     ctx.gen_replay(res, "vfk", "MC_C08.tla", cfg)
     ctx.gen_replay(res, "vfk", "MC_C08.tla", "MC_C08_deep.cfg")   # deeper Maps (7 nodes), no conditions
@@ -24,28 +26,37 @@ def c08(ctx, res):
 
 
 def c09(ctx, res):
+    path_trace(ctx, res)
     cfg = "MC_C09_quick.cfg" if ctx.quick else "MC_C09_thorough.cfg"
     ctx.gen_replay(res, "leaf", "MC_C09.tla", cfg)
     res.assumptions += ["leaf collections are compared as bags", "resolution clause applied to Maps without empty keys and without directly nested lists, [N] notation"]
 
 
 def c10(ctx, res):
+    path_trace(ctx, res)
     cfg = "MC_C10_quick.cfg" if ctx.quick else "MC_C10_thorough.cfg"
     ctx.gen_replay(res, "upd", "MC_C10.tla", cfg)
     res.assumptions += ["the new value is fresh (occurs nowhere in the Map), so every replacement is visible to the frame theorem"]
 
 
 def c11(ctx, res):
+    path_trace(ctx, res)
     cfg = "MC_C11_quick.cfg" if ctx.quick else "MC_C11_thorough.cfg"
     ctx.gen_replay(res, "mut", "MC_C11.tla", cfg)
     res.assumptions += ["SetValueForPath whose parent is reached through a list is outside the property's domain: only checked for panics"]
 
 
 def c12(ctx, res):
+    path_trace(ctx, res)
     cfg = "MC_C12_quick.cfg" if ctx.quick else "MC_C12_thorough.cfg"
     ctx.gen_replay(res, "newmap", "MC_C12.tla", cfg)
     res.assumptions += ["content compared up to list order when an old path has a wildcard (map iteration order)",
                         "sharing of *values* between result and receiver is inherent to Go maps and not claimed absent; only modification by the NewMap call itself is checked"]
+
+
+def path_trace(ctx, res):
+    """code -> spec for the query/mutation family: random deep and wide Maps, chained sessions"""
+    ctx.trace(res, "path", "Trace_Path.tla", "Trace_Path.cfg", n=4000 if ctx.quick else 60000, timeout_s=300 if ctx.quick else 1800)
 
 
 PROPS = {
